@@ -1,4 +1,4 @@
 SPECIFICATION MCSpec
-CONSTANTS MaxOpts = 2  Wide = FALSE  DoFiles = TRUE  Big = TRUE  Strict = "none"
+CONSTANTS MaxOpts = 2  Wide = FALSE  DoFiles = TRUE  Cov = FALSE  Big = TRUE  Strict = "none"
 INVARIANTS TypeOK ScanContract EarlyExitContract NoPatternContract StatusContract ReadContract NameContract LabelContract StrictInv
 CHECK_DEADLOCK FALSE
